@@ -54,7 +54,7 @@ theorem allSel_select {c : UInt8} {p : List (Op S) × Cont S → Bool} (ev : Con
 outside `X` can select satisfies `p` -/
 def allOther (X : List UInt8) (p : List (Op S) × Cont S → Bool) : Code S → Bool
   | .leaf ops k => p (ops, k)
-  | .ifB bs t e => bs.all X.contains && allOther X p e
+  | .ifB bs _ e => bs.all X.contains && allOther X p e
   | .ifC _ t e => allOther X p t && allOther X p e
 
 theorem allOther_select {X : List UInt8} {c : UInt8} {p : List (Op S) × Cont S → Bool}
